@@ -97,6 +97,17 @@ def judge(case):
             v.append(core.viol("C12/regression", "regressed activation energy %r, true %r" % (float(ea_fit), ea)))
         elif n < 2 and not core.bit_eq(float(ea_fit), ea):
             v.append(core.viol("C12/stated_energy", "stated activation energy %r returned as %r" % (ea, float(ea_fit))))
+    # the same membrane object asked other questions first (another component, other temperatures) must answer the same
+    if not v:
+        _c, _o, _t, _e, mem2 = build(case)
+        core.call(mem2.get_permeance, 301.7, other)
+        core.call(mem2.get_permeance, temps[-1] + 13.3, comp)
+        core.call(mem2.get_permeance, temps[0], comp)
+        core.call(mem2.calculate_activation_energy, comp)
+        st2, got2 = core.call(mem2.get_permeance, t, comp)
+        if st2 != "ok" or not core.bit_eq(float(got2.value), val):
+            v.append(core.viol("C12/depends_on_earlier_queries", "T=%r: a fresh membrane object answers %r, the same membrane after four other queries answers %r" % (
+                t, val, got2 if st2 != "ok" else float(got2.value))))
     # selectivity and pure-component flux
     if not v:
         st1, sm = core.call(mem.get_ideal_selectivity, 303.0 if False else t, comp, other, "molar")
